@@ -439,7 +439,28 @@ def plan_case(rng, kind, nmax, nops, families, cond_max=COND_MAX, allow_updates=
             # a solve right after the update
             ops.append([rng.choice(single), sv_json(gen_rhs(rng, n, kind))])
         else:
+            if allow_updates and rng.random() < 0.5:
+                # an update that is prepared and then abandoned for a refactorization
+                pc = gen_column(rng, n, cur, kind)
+                ops.append(["PREP", sv_json({i: v for i, v in enumerate(pc) if v != 0})])
             ops.append(["LOAD"])
+            if allow_updates and utype == 0 and rng.random() < 0.7:
+                # ETA: a replacement right after the load WITHOUT its own ...4update (change() solves itself)
+                for t in range(8):
+                    idx = rng.randrange(n)
+                    col = gen_column(rng, n, cur, kind)
+                    w = mat_vec(cinv, col)
+                    if w[idx] == 0:
+                        continue
+                    ninv = update_inverse(cinv, idx, w)
+                    ncur = [list(c) for c in cur]
+                    ncur[idx] = col
+                    if kind == "D" and cond_inf(ncur, ninv) > cond_max:
+                        continue
+                    ops.append(["CHG", idx, "N", sv_json({i: v for i, v in enumerate(col) if v != 0})])
+                    cur, cinv = ncur, ninv
+                    ops.append([rng.choice(single), sv_json(gen_rhs(rng, n, kind))])
+                    break
     return {"kind": kind, "n": n, "utype": utype, "mark": fstr(mark), "family": fam, "expect": "regular",
             "cols": [col_json(c) for c in cols], "ops": ops}
 
@@ -728,6 +749,10 @@ def walk_case(ck, cid, c, obs, Q, pending):
             return
         line = obs[oi]
         oi += 1
+        if kind == "D" and any(w in line for w in ("nan", "inf")):
+            viol("non-finite:%s:%s" % (kind, op[0]), "operation %s returned a non-finite entry (the matrix is regular and well conditioned): %s" % (op[0], line[:200]),
+                 {"observed": line})
+            return
         cmd, d = parse_obs(kind, line)
         name = op[0]
         if " EXC " in line or " STDEXC " in line or cmd != name:
@@ -796,12 +821,12 @@ def walk_case(ck, cid, c, obs, Q, pending):
             Q.q(("close", cid, sigop, state, what, line, c), "CLOSE", "x", "y", fstr(TOL_CLOSE))
 
         ck.count("op:%s:%s" % (name, state if name != "CHG" else upd))
-        if name in ("SR", "SRS", "SL", "SLS"):
+        if name in ("SR", "SRS", "SL", "SLS", "PREP"):
             b = sv_load(op[1])
             if len(d.get("x", [])) != n:
                 viol("bad-output", "malformed observation %s" % line[:100])
                 return
-            solve_query("R" if name[1] == "R" else "L", d["x"], b, "x", name)
+            solve_query("R" if (name == "PREP" or name[1] == "R") else "L", d["x"], b, "x", name)
             if len(op) > 2 and op[2] == "ref":
                 refs.append(d["x"])
             ck.evaluated((cid, oi))
